@@ -125,6 +125,45 @@ def pair_cases_sampled(ctx, rng, arcs, K, n_second, quota):
     return out, boundary
 
 
+def interior_points(arcs, K):
+    """(arc, p) with p a lattice point strictly inside the arc -- read off TLC's class vectors."""
+    out = []
+    for e in arcs:
+        for i, dig in enumerate(e.get("classes") or ""):
+            if dig == "1":
+                out.append((e, X.vec_of_index(i, K)))
+    return out
+
+
+def shrunk_point_cases(rng, aps, K, n_q):
+    w = (2 * K + 1) ** 3
+    sm, sl = [], []
+    for e, p in aps:
+        tag = "K%d:%s|%s|%s" % (K, X.vkey(e["a"]), X.vkey(e["b"]), X.vkey(p))
+        qidx = list(range(w)) if n_q >= w else sorted(rng.sample(range(w), n_q))
+        sm.append({"id": "SM:" + tag, "K": K, "a": e["a"], "b": e["b"], "p": p, "qidx": qidx, "ks": X.S_KS})
+        sl.append({"id": "SL:" + tag, "K": K, "a": e["a"], "b": e["b"], "p": p, "cand": e["cand"], "ks": X.S_KS})
+    return sm, sl
+
+
+def shrunk_pair_cases(x_cases, K, limit, rng):
+    """Crossing pairs (class and crossing direction from TLC) shrunk around their crossing direction."""
+    out, n = [], 0
+    order = list(x_cases)
+    rng.shuffle(order)
+    for c in order:
+        o, xs, ws = [], [], []
+        for cd, x, cls in zip(c["o"], c["x"], c["cls"]):
+            if cls in ("CrossAtX", "CrossAtMinusX") and n < limit:
+                o.append(cd)
+                xs.append(x)
+                ws.append(x if cls == "CrossAtX" else [-t for t in x])
+                n += 1
+        if o:
+            out.append({"id": "S" + c["id"], "K": K, "a": c["a"], "b": c["b"], "o": o, "x": xs, "w": ws, "ks": X.S_KS})
+    return out
+
+
 # ------------------------------------------------------------------------------------ verdicts
 def _groups(fails, names):
     """Split TLC's {(clause, variant)} into the exact variants and one group per perturbed replay (ulp jitter,
@@ -207,6 +246,37 @@ def report_lat(ctx, V, cases, keyed_K, K_of):
                               sig=sig, replay={"fn": "extreme_gca_latitude", "a": c["a"], "b": c["b"], "cand": c["cand"], "kz": c["kz"], "theta": c["theta"], "jseed": c["jseed"]})
 
 
+def report_shrunk(ctx, V, cases):
+    """Verdict lines of the shrunk-arc families: <<"V", id, kind, <<k, j>>, class, kinds, fails>>"""
+    by = {c["id"]: c for c in cases}
+    names = {"SM": X.SM_VARIANTS, "SX": X.SX_VARIANTS, "SL": X.SL_VARIANTS}
+    fn = {"SM": "point_within_gca", "SX": "gca_gca_intersection", "SL": "extreme_gca_latitude"}
+    for v in V:
+        _, rid, kind, (k, j), cls, kinds, fails = v
+        c = by[rid]
+        for suffix, gname, grp in _groups(fails, names[kind] + ["-"]):   # no generic rotation in these families
+            if not grp:
+                continue
+            if kind == "SM":
+                q = c["p"] if j == 0 else X.vec_of_index(c["qidx"][j - 1], c["K"])
+                what = {"p": c["p"], "q": q}
+                key = "SM/K%d/%s/%s/%s/%s/k%d%s" % (c["K"], X.vkey(c["a"]), X.vkey(c["b"]), X.vkey(c["p"]), X.vkey(q), k, suffix)
+            elif kind == "SX":
+                cd = c["o"][j - 1]
+                what = {"c": cd[0], "d": cd[1], "x": c["x"][j - 1], "w": c["w"][j - 1]}
+                key = "SX/K%d/%s/%s/%s/%s/k%d%s" % (c["K"], X.vkey(c["a"]), X.vkey(c["b"]), X.vkey(cd[0]), X.vkey(cd[1]), k, suffix)
+            else:
+                what = {"p": c["p"], "cand": c["cand"]}
+                key = "SL/K%d/%s/%s/%s/k%d%s" % (c["K"], X.vkey(c["a"]), X.vkey(c["b"]), X.vkey(c["p"]), k, suffix)
+            sig = {"fn": fn[kind], "keyed": False, "polar": "polar" in kinds, "class": str(cls), "plane_residual_gt_eps": False,
+                   "replay_group": gname, "arc_kind": "+".join(sorted(set(kinds))),
+                   "meridian_plane": "meridian" in kinds or "polar" in kinds, "short_arc": True, "k": k}
+            for clause in sorted({cl for cl, _ in grp}):
+                ctx.violation(key, clause, detail={"failed": grp, "variants": names[kind], "arc_kinds": list(kinds), "exact_class": cls,
+                                                   "shrunk": "arcs (M w + a, M w + b), M = 10^%d" % k},
+                              sig=sig, replay=dict(what, fn=fn[kind], shrunk=True, a=c["a"], b=c["b"], k=k, jseed=c["jseed"], id=rid))
+
+
 def run(ctx):
     rng = random.Random(ctx.seed)
     thorough = ctx.tier == "thorough"
@@ -264,7 +334,24 @@ def run(ctx):
     l_cases += l2 + l3
     x_cases += x2 + x3
 
-    for c in m_cases + l_cases + x_cases:
+    # shrunk arcs: short arcs (down to ~1e-6 rad) whose exact class is inherited from a lattice case by the
+    # laws LawShrinkTriple / LawShrinkPair / LawShrinkLat (model-checked for M = 1..3 in ArcScope.tla)
+    ap1 = interior_points(arcs1, 1)
+    ap2 = interior_points(arcs2, 2)
+    x1_cases = [c for c in x_cases if K_of[c["id"]] == 1]
+    x2_cases = [c for c in x_cases if K_of[c["id"]] == 2]
+    if thorough:
+        ap2 = rng.sample(ap2, min(len(ap2), 4000))
+        sm1, sl1 = shrunk_point_cases(rng, ap1, 1, 27)
+        sm2, sl2 = shrunk_point_cases(rng, ap2, 2, 40)
+        sx = shrunk_pair_cases(x1_cases, 1, 10 ** 9, rng) + shrunk_pair_cases(x2_cases, 2, 12000, rng)
+    else:
+        ap2 = rng.sample(ap2, min(len(ap2), 250))
+        sm1, sl1 = shrunk_point_cases(rng, ap1, 1, 27)
+        sm2, sl2 = shrunk_point_cases(rng, ap2, 2, 16)
+        sx = shrunk_pair_cases(x1_cases, 1, 1200, rng) + shrunk_pair_cases(x2_cases, 2, 600, rng)
+    s_cases = sm1 + sm2 + sl1 + sl2 + sx
+    for c in m_cases + l_cases + x_cases + s_cases:
         c["jseed"] = _jseed(ctx.seed, c["id"])
 
     # ---- 3. replay into the implementation
@@ -272,9 +359,10 @@ def run(ctx):
     m_recs = pmap(X.replay_member, m_cases)
     l_recs = pmap(X.replay_lat, l_cases)
     x_recs = pmap(X.replay_pairs, x_cases)
+    s_recs = pmap(X.replay_sm, sm1 + sm2) + pmap(X.replay_sl, sl1 + sl2) + pmap(X.replay_sx, sx)
 
     # ---- 4. TLC judges
-    recs = m_recs + l_recs + x_recs
+    recs = m_recs + l_recs + x_recs + s_recs
     chunk = 20000
     V, S = [], []
     for k in range(0, len(recs), chunk):
@@ -283,8 +371,8 @@ def run(ctx):
         S += s
 
     # ---- 5. bookkeeping: what was judged, what was boundary
-    stat = {"M": Counter(), "X": Counter(), "L": Counter()}
-    kinds_judged = {"M": Counter(), "X": Counter(), "L": Counter()}
+    stat = {k: Counter() for k in ("M", "X", "L", "SM", "SX", "SL")}
+    kinds_judged = {k: Counter() for k in ("M", "X", "L", "SM", "SX", "SL")}
     for _, rid, kind, akind, judged, boundary, pos in S:
         stat[kind]["judged"] += judged
         stat[kind]["boundary"] += boundary
@@ -305,8 +393,15 @@ def run(ctx):
             raise Machinery("vacuous: no %s case judged on arcs of kind %s" % (kind, missing))
     n_calls = (stat["M"]["judged"] * (len(X.M_VARIANTS) + 1) + stat["X"]["judged"] * len(X.X_VARIANTS)
                + stat["L"]["judged"] * len(X.L_VARIANTS) * 2)
-    ctx.traces += stat["M"]["judged"] + stat["X"]["judged"] + stat["L"]["judged"]
+    n_calls += (stat["SM"]["judged"] * len(X.SM_VARIANTS) + stat["SX"]["judged"] * len(X.SX_VARIANTS)
+                + stat["SL"]["judged"] * len(X.SL_VARIANTS) * 2)
+    for kind in ("SM", "SX", "SL"):
+        if stat[kind]["judged"] == 0:
+            raise Machinery("vacuous: no shrunk-arc case of kind %s judged" % kind)
+    ctx.traces += sum(stat[k]["judged"] for k in stat)
     ctx.evaluations += n_calls
+    for c in s_cases:
+        ctx.nontrivial.add(c["id"])
     for r in m_recs:
         base = X.index_of_vec(r["a"], 3) * 400 + X.index_of_vec(r["b"], 3)
         for i in r["pidx"]:
@@ -321,6 +416,7 @@ def run(ctx):
     report_member(ctx, [v for v in V if v[2] == "M"], m_cases, keyed_K)
     report_pairs(ctx, [v for v in V if v[2] == "X"], x_cases, keyed_K, K_of)
     report_lat(ctx, [v for v in V if v[2] == "L"], l_cases, keyed_K, K_of)
+    report_shrunk(ctx, [v for v in V if v[2] in ("SM", "SX", "SL")], s_cases)
 
     ctx.exhaustive = True
     ctx.rule = (
@@ -365,10 +461,23 @@ def replay(path):
         data = json.load(fh)
     ctx = core.Ctx(PROP, "replay", 0)
     try:
-        m_cases, x_cases, l_cases = [], [], []
+        m_cases, x_cases, l_cases, s_cases = [], [], [], []
         for n, v in enumerate(data.get("cases", [])):
             r = v["replay"]
-            if r["fn"] == "point_within_gca":
+            if r.get("shrunk"):
+                # shrunk-arc cases: same arcs, same exact variants; the jitter replay is re-seeded (index within the record differs)
+                sid = "%s:%d" % (r["id"].split(":")[0], n)
+                K = int(r["id"].split(":")[1][1:])
+                if r["fn"] == "point_within_gca":
+                    s_cases.append(("sm", {"id": sid, "K": K, "a": r["a"], "b": r["b"], "p": r["p"], "qidx": [X.index_of_vec(r["q"], K)],
+                                           "ks": [r["k"]], "jseed": r["jseed"], "key": v["key"]}))
+                elif r["fn"] == "gca_gca_intersection":
+                    s_cases.append(("sx", {"id": sid, "K": K, "a": r["a"], "b": r["b"], "o": [[r["c"], r["d"]]], "x": [r["x"]], "w": [r["w"]],
+                                           "ks": [r["k"]], "jseed": r["jseed"], "key": v["key"]}))
+                else:
+                    s_cases.append(("sl", {"id": sid, "K": K, "a": r["a"], "b": r["b"], "p": r["p"], "cand": r["cand"],
+                                           "ks": [r["k"]], "jseed": r["jseed"], "key": v["key"]}))
+            elif r["fn"] == "point_within_gca":
                 K = max(1, max(abs(t) for t in r["a"] + r["b"] + r["p"]))
                 m_cases.append({"id": "M:%d" % n, "K": K, "a": r["a"], "b": r["b"], "pidx": [0] * r.get("j", 0) + [X.index_of_vec(r["p"], K)],
                                 "kz": r["kz"], "theta": r["theta"], "jseed": r.get("jseed", 0), "key": v["key"]})
@@ -379,14 +488,15 @@ def replay(path):
                 l_cases.append({"id": "L:%d" % n, "a": r["a"], "b": r["b"], "cand": r["cand"], "kz": r["kz"], "theta": r["theta"], "jseed": r.get("jseed", 0), "key": v["key"]})
         X.warm_up()
         recs = [X.replay_member(c) for c in m_cases] + [X.replay_lat(c) for c in l_cases] + [X.replay_pairs(c) for c in x_cases]
+        recs += [{"sm": X.replay_sm, "sx": X.replay_sx, "sl": X.replay_sl}[t](c) for t, c in s_cases]
         V, _, _ = X.judge(ctx, recs, "re-judge %d replayed cases" % len(recs))
-        keys = {c["id"]: c["key"] for c in m_cases + x_cases + l_cases}
+        keys = {c["id"]: c["key"] for c in m_cases + x_cases + l_cases + [c for _, c in s_cases]}
         bad = {}
         for v in V:
             # membership replays pad pidx with index 0 (the zero vector, never judged) to keep the tilt parity
             bad.setdefault(v[1], []).append(sorted(v[6]))
         for rec in recs:
-            shown = [row[-1] for row in rec["r"]] + [rec["t"][-1]] if rec["kind"] == "M" else rec["r"]
+            shown = [row[-1] for row in rec["r"]] + [rec["t"][-1]] if rec["kind"] == "M" else (rec.get("rp"), rec.get("tp"), rec["r"]) if rec["kind"] == "SM" else rec["r"]
             print("%s  %s  impl(per variant)=%s" % ("FAILS" if rec["id"] in bad else "holds", keys[rec["id"]], json.dumps(shown)[:200]))
             if rec["id"] in bad:
                 print("    failed clauses (clause, variant): %s" % bad[rec["id"]])
